@@ -36,8 +36,8 @@ MODULES = {
     "cell": {"kind": "cell", "cells": [{"parents": [-1, 0, 0, 1], "ncomp": [2, 1, 3, 2]}]},
     "net": {"kind": "network", "cells": [{"parents": [-1, 0], "ncomp": [2, 1]}, {"parents": [-1], "ncomp": [2]}]},
 }
-VIEWS = {"cell": {"all": None, "b0": [0, 1], "b1": [2], "c0": [0], "last": [7], "b2": [3, 4, 5]},
-         "net": {"all": None, "b0": [0, 1], "b1": [2], "c0": [0], "last": [4], "b2": [3, 4]}}
+VIEWS = {"cell": {"all": None, "b0": [0, 1], "b1": [2], "c0": [0], "last": [7], "b2": [3, 4, 5], "e2": None},
+         "net": {"all": None, "b0": [0, 1], "b1": [2], "c0": [0], "last": [4], "b2": [3, 4], "e2": None}}
 ALPHABET = [
     ("insert", "K", "all"), ("insert", "Km", "b0"), ("insert", "Na", "b1"), ("delete_channel", "K", "all"), ("delete_channel", "K", "b0"),
     ("delete_channel", "Km", "b0"), ("set", "radius", "last"), ("record", "v", "c0"), ("delete_recordings", "", "all"), ("stimulate", "", "c0"),
@@ -71,7 +71,7 @@ def cases(seed, tier):
     for k in range(nrand):
         rng = trees.rng_for(seed, PID, k)
         mod = ["cell", "net"][k % 2]
-        views = list(VIEWS[mod])
+        views = [v for v in VIEWS[mod] if v != "e2"]
         n = int(rng.integers(4, 26))
         h = []
         pair = [["K", "Km"], ["Na", "K"], ["CaL", "CaT"], ["HH", "Leak"]][int(rng.integers(0, 4))]
